@@ -3,8 +3,8 @@ CONSTANTS
  Setups <- S_chain2
  Acts <- A_chain2
  Bufs <- B_size
- MaxSteps = 4
- MaxIn = 3
+ MaxSteps = 3
+ MaxIn = 2
  Variant = "ok"
  CheckEpi = FALSE
 INVARIANT Emit
